@@ -181,7 +181,34 @@ func (c *Ctx) special(t *rapid.T, md protoreflect.MessageDescriptor, depth int, 
 			c.cls("date-year<1000")
 		}
 		month := rapid.Int32Range(1, 12).Draw(t, label+"month")
-		day := rapid.Int32Range(1, 28).Draw(t, label+"day")
+		// the whole proleptic Gregorian month, its last day a third of the time; centuries and
+		// leap centuries are in the year pool so that 29 February of both kinds is drawn
+		if rapid.IntRange(0, 5).Draw(t, label+"yearcentury") == 0 {
+			year = rapid.SampledFrom([]int32{4, 100, 400, 1600, 1900, 2000, 2100, 2400, 8000, 9996}).Draw(t, label+"yearcenturypool")
+		}
+		if rapid.IntRange(0, 3).Draw(t, label+"feb") == 0 {
+			month = 2
+		}
+		last := int32(31)
+		switch month {
+		case 4, 6, 9, 11:
+			last = 30
+		case 2:
+			last = 28
+			if year%4 == 0 && (year%100 != 0 || year%400 == 0) {
+				last = 29
+			}
+		}
+		day := rapid.Int32Range(1, last).Draw(t, label+"day")
+		if rapid.IntRange(0, 2).Draw(t, label+"daylast") == 0 {
+			day = last
+		}
+		if day > 28 {
+			c.cls("date-day>28")
+		}
+		if month == 2 && day == 29 && year%100 == 0 {
+			c.cls("date-leap-century")
+		}
 		if c.Extended && rapid.IntRange(0, 3).Draw(t, label+"dateext") == 0 {
 			year = rapid.SampledFrom([]int32{0, -1, 10000, 123456, math.MinInt32}).Draw(t, label+"yearout")
 			c.cls("out-of-range-date")
